@@ -129,6 +129,7 @@ def _inv_create_wires(lv):
         ('C01', 'new-wires', c.forall(['x'], lambda x: Implies(new(x), And(c.cls(x) == c.C['Wire'], h['_cable'][x] == self_,
             c.cnt(h['_wires'][self_], x) == 1, h['t:par:_wires'][x], h['l:par:_wires'][x] == self_)),
             lambda x: [A[x], h['t:par:_wires'][x], h['_cable'][x]])),
+        ('C01', 'one-wire-per-iteration', c.len(h['_wires'][self_]) == c.len(hl['_wires'][self_]) + lv.i),
         ('C01', 'new-wires-unconnected', c.forall(['x', 'y'], lambda x, y: Implies(new(x), c.cnt(h['_pins'][x], y) == 0), lambda x, y: c.cnt(h['_pins'][x], y))),
         ('C01', 'old-members', c.forall(['y'], lambda y: Implies(Not(new(y)), c.cnt(h['_wires'][self_], y) == c.cnt(hl['_wires'][self_], y)),
                                         lambda y: c.cnt(h['_wires'][self_], y))),
@@ -154,6 +155,7 @@ def _inv_create_pins(lv):
         ('C01', 'new-pins', c.forall(['q'], lambda q: Implies(newpin(q), And(h['_port'][q] == self_, c.cnt(h['_pins'][self_], q) == 1,
             h['_wire'][q] == c.null, h['t:par:_pins'][q], h['l:par:_pins'][q] == self_)),
             lambda q: [A[q], h['t:par:_pins'][q], h['_port'][q]])),
+        ('C01', 'one-pin-per-iteration', c.len(h['_pins'][self_]) == c.len(hl['_pins'][self_]) + lv.i),
         ('C01', 'old-members', c.forall(['y'], lambda y: Implies(Not(newpin(y)), c.cnt(h['_pins'][self_], y) == c.cnt(hl['_pins'][self_], y)),
                                         lambda y: c.cnt(h['_pins'][self_], y))),
         ('C14', 'old-objects', c.forall(['x'], lambda x: Implies(Not(And(A[x], Not(A0[x]))), And(h['_port'][x] == hl['_port'][x], h['_instance'][x] == hl['_instance'][x],
